@@ -205,8 +205,9 @@ def main(argv=None):
   for case, v in failures:
     replays.append(common.write_replay(prop.id, case, v.msg, v.bucket))
   if os.environ.get("VERIF_NO_EVIDENCE"):
-    for r in replays:
-      os.unlink(r)
+    for r in set(replays):
+      if os.path.exists(r):
+        os.unlink(r)
   if len(stats.nontrivial) < 2 and not failures:
     raise HarnessError("fewer than 2 non-trivial cases generated; generator is broken")
   if not os.environ.get("VERIF_NO_EVIDENCE"):
